@@ -127,4 +127,11 @@ var props = []Prop{
 		Bounds:  "4 resource types placed at IDs 0, 1 or 17, 63 or 64 (31/32 in tiny), and the last ID (255 / 63) by filler registrations that cross every 16-ID chunk and 64-bit word; symbolic sequences of 2 (thorough 4) operations out of: Add (World.Resources, generic.Resource, ecs.AddResource), Remove (World.Resources, generic.Resource), registration of a further type, entity creation + component registration, entity removal, lock/unlock by a query, Reset; after every step Has/Get of every registered type through all three APIs against the model (exact pointer identity, nil when absent), panics exactly for duplicate Add / missing Remove, no component ids consumed",
 		Outside: "more than 4 distinct resource types holding values at once (all 256 ids are registered by the fillers); sequences longer than 4 operations",
 	},
+	{
+		ID: "C16",
+		Harnesses: []H{{Pkg: "ecs", Fn: "HC16_Layouts"}, {Pkg: "ecs", Fn: "HC16_Layouts", Tags: "tiny"}, {Pkg: "ecs", Fn: "HC16_Shapes", W: 2}, {Pkg: "ecs", Fn: "HC16_Shapes", W: 2, Tags: "tiny"}},
+		Conform: []H{{Pkg: "ecs", Fn: "HSmoke"}},
+		Bounds:  "m types registered before the first tables exist and n in total, (m, n) over all pairs from the boundary set {0,1,15,16,17,63,64,65,128,192,239,240,241,255,256} (tiny: {0,1,15,16,17,31,32,33,47,48,49,62,63,64}) with m <= n; a component id j from the same set (j < n) is used on a table created before its registration and on tables created after it: Has/Get on old tables (out-of-block unsafe reads are violations), NewEntity, write/read through Get, Add to / Remove from entities of old tables, query; registry: dense ids in order, ComponentIDs/ComponentInfo consistent, same type same id, unregistered id reported false; at the limit one more registration panics and changes nothing; shapes: Relation embedded first / later / as named field / by pointer / alone / non-struct, resource registry independent, registration refused under lock is rolled back completely; capacity increments 1..2",
+		Outside: "values of m, n, j between the boundary values (the chunk arithmetic is piecewise uniform between multiples of 16 and 64)",
+	},
 }
